@@ -83,7 +83,12 @@ def run_side(case: dict[str, Any], mirrored: bool) -> tuple[list[Any], Any]:
     study = optuna.create_study(study_name="c13-study", directions=dirs, sampler=sampler, pruner=pruner)
     rec = programs.Recorder()
     obj = programs.make_objective(prog, rec, sign=sign, distinct=True, dyadic=True)
-    study.optimize(obj, n_trials=case["n_trials"], catch=(ValueError,))
+    try:
+        study.optimize(obj, n_trials=case["n_trials"], catch=(ValueError,))
+    except (IndexError, KeyError, AssertionError, TypeError, ZeroDivisionError) as e:
+        # optimize() itself failed (a crash inside a sampler / pruner): recorded, and judged below
+        # like everything else -- the mirrored run has to fail the same way at the same trial
+        study._c13_crash = f"{type(e).__name__}"  # type: ignore[attr-defined]
     out = []
     for t in study.get_trials(deepcopy=False):
         r = programs.trial_record(t)
@@ -100,13 +105,15 @@ def run_pair(case: dict[str, Any], ctx: Ctx) -> None:
 
         if _brute_leaves(prog) <= case["n_trials"]:
             case = dict(case, n_trials=max(1, _brute_leaves(prog) - 1))
-    try:
-        a, sa = run_side(case, False)
-        b, sb = run_side(case, True)
-    except (IndexError, KeyError, AssertionError, TypeError, ZeroDivisionError) as e:
-        import traceback
-
-        raise Violation("optimize-raises", f"sampler={case['sampler']} pruner={case['pruner']['kind']}: {type(e).__name__}: {e}\n{traceback.format_exc()[-1500:]}", case)
+    a, sa = run_side(case, False)
+    b, sb = run_side(case, True)
+    ca, cb = getattr(sa, "_c13_crash", None), getattr(sb, "_c13_crash", None)
+    if ca != cb:
+        raise Violation("mirror:one-side-raises", f"sampler={case['sampler']} pruner={case['pruner']['kind']} directions={case['directions']} flip={case['flip']}: optimize() raised {ca} in the run as given and {cb} in the mirrored run", case)
+    if ca is not None:
+        # a crash that does not depend on the direction is not this property's subject (it is
+        # listed in DESIGN.md 6.3); the histories up to the crash are still compared
+        ctx.event("both-runs-raise:" + ca)
     flip = case["flip"]
     n_obj = prog["n_obj"]
     ctxt = f"sampler={case['sampler']} pruner={case['pruner']} directions={case['directions']} flip={flip}"
